@@ -43,7 +43,12 @@ func concOps(rnd *rand.Rand, nkeys int) step {
 	k := keys[rnd.Intn(len(keys))]
 	k2 := keys[rnd.Intn(len(keys))]
 	el := []string{"a", "b"}[rnd.Intn(2)]
-	switch rnd.Intn(14) {
+	switch rnd.Intn(16) {
+	case 14:
+		// two-statement key operations: a rename onto a name another caller may be creating
+		return opKeyRenameNX("n"+k, "n"+k2)
+	case 15:
+		return opKeyRename("n"+k, "n"+k2)
 	case 0, 1:
 		return opStrIncr("n"+k, 1+rnd.Intn(3))
 	case 2:
